@@ -367,11 +367,25 @@ def run_py(script, lines, hashseed='0', shims=False, timeout=900, args=()):
 # ------------------------------------------------------------------------------------------------
 
 def known_findings(cid):
-    try:
-        data = json.load(open(os.path.join(VERIF, 'KNOWN_FINDINGS.json')))
-    except FileNotFoundError:
-        return []
-    return [k for k in data.get('findings', []) if k['property'] == cid and k.get('kind') == 'finding']
+    """entries of kind "finding" for this property: KNOWN_FINDINGS.json plus known_findings/*.json
+    (per-property fragments, merged into the main file by harness/mkmanifest.py)"""
+    items = []
+    paths = [os.path.join(VERIF, 'KNOWN_FINDINGS.json')]
+    kd = os.path.join(VERIF, 'known_findings')
+    if os.path.isdir(kd):
+        paths += [os.path.join(kd, f) for f in sorted(os.listdir(kd)) if f.endswith('.json')]
+    for path in paths:
+        try:
+            data = json.load(open(path))
+        except FileNotFoundError:
+            continue
+        items += data.get('findings', [])
+    seen, out = set(), []
+    for k in items:
+        if k['property'] == cid and k.get('kind') == 'finding' and k['signature'] not in seen:
+            seen.add(k['signature'])
+            out.append(k)
+    return out
 
 
 class Report:
